@@ -589,6 +589,9 @@ func GenConfig(t *rapid.T, o GenOpts) *Config {
 			}
 		}
 	}
+	if o.Groups {
+		cfg.Scribble = rapid.IntRange(0, 2).Draw(t, "scribble") == 0
+	}
 	if o.PreBuild && len(cfg.Regs) >= 2 && rapid.IntRange(0, 3).Draw(t, "prebuild") == 0 {
 		cfg.PreBuild = rapid.IntRange(1, len(cfg.Regs)-1).Draw(t, "prebuildN")
 	}
